@@ -22,10 +22,29 @@ def fl(a):
 
 # --------------------------------------------------------------------------- boxes
 def gen_box(rng, N, kind=None):
-    kinds = ["unit", "float", "float", "int", "tiny", "mixed", "neg"]
+    kinds = ["unit", "float", "float", "int", "tiny", "mixed", "neg", "special", "far"]
     kind = kind or kinds[int(rng.integers(len(kinds)))]
     if kind == "unit":
         lo, hi = [0.0] * N, [1.0] * N
+    elif kind == "special":
+        # boxes on which the affine cube-to-box map degenerates (identity, pure shift, pure scaling), per axis or throughout
+        sp = [(-0.5, 0.5), (0.0, 1.0), (-1.0, 1.0), (0.0, 0.5), (-0.5, 0.0), (-0.25, 0.75), (1.0, 2.0), (0.0, 2.0)]
+        if rng.random() < 0.5:
+            a = sp[int(rng.integers(3))]
+            lo, hi = [a[0]] * N, [a[1]] * N
+        else:
+            pick = [sp[int(rng.integers(len(sp)))] for _ in range(N)]
+            lo, hi = [a[0] for a in pick], [a[1] for a in pick]
+    elif kind == "far":
+        # side small relative to the offset (|lower|/side up to 1e6, the limit stated in DESIGN.md section 4) or absolutely small
+        if rng.random() < 0.7:
+            side = 10 ** rng.uniform(-3, 1, N)
+            lo = fl(side * 10 ** rng.uniform(3, 6, N) * rng.choice([-1.0, 1.0], N))
+            hi = [l + float(s) for l, s in zip(lo, side)]
+        else:
+            side = 10 ** rng.uniform(-9, -5, N)
+            lo = fl(side * rng.uniform(-3, 3, N))
+            hi = [l + float(s) for l, s in zip(lo, side)]
     elif kind == "int":
         lo = [int(v) for v in rng.integers(-20, 20, N)]
         hi = [int(l + s) for l, s in zip(lo, rng.integers(1, 30, N))]
